@@ -1,4 +1,5 @@
 CFG = dict(
+    overlay=["c16", "sim"],
     lean_modules=["SaramaVerif.Model.ProduceSet", "SaramaVerif.Lemmas.C16Sets", "SaramaVerif.Lemmas.C16Wire",
                   "SaramaVerif.Props.C16", "SaramaVerif.Bridge.C16"],
     lean_support=["SaramaVerif.GoSem", "SaramaVerif.Gen.C16"],
